@@ -362,12 +362,19 @@ MODULES = {
     ],
     'StringSlice': [
         dict(file='pony/orm/sqlbuilding.py', qualname='SQLBuilder.STRING_SLICE', lean='stringSlice', self_param='builder'),
+        dict(file='pony/orm/dbproviders/sqlite.py', qualname='SQLiteBuilder.STRING_SLICE', lean='sqliteStringSlice', self_param='builder'),
     ],
     'Micro': [
         dict(file='pony/orm/dbapiprovider.py', qualname='ConverterWithMicroseconds.round_microseconds_to_precision', lean='roundMicroseconds', self_param='converter'),
     ],
     'Quote': [
         dict(file='pony/orm/sqlbuilding.py', qualname='Value.quote_str', lean='quoteStr', self_param='self'),
+    ],
+    'SqlBuild': [   # C06: how the LIKE / REPLACE / MOD nodes become SQL text
+        dict(file='pony/orm/sqlbuilding.py', qualname='SQLBuilder.MOD', lean='sqlMod', self_param='builder'),
+        dict(file='pony/orm/sqlbuilding.py', qualname='SQLBuilder.LIKE', lean='sqlLike', self_param='builder'),
+        dict(file='pony/orm/sqlbuilding.py', qualname='SQLBuilder.NOT_LIKE', lean='sqlNotLike', self_param='builder'),
+        dict(file='pony/orm/sqlbuilding.py', qualname='SQLBuilder.REPLACE', lean='sqlReplaceCall', self_param='builder'),
     ],
 }
 
